@@ -230,6 +230,11 @@ def gen_C17(rnd, n, tier):
     for bad in ["script Bad { special(DoBadThing)\n Bad_1:\n if (flag(FLAG_B)) { setvar(VAR_0x8004, 7) } }\n",
                 'script Bad2 { lock msgbox("x")\n Bad2_Text_0:\n release }\n', "script G { lock if (flag(FLAG_A)) { a } release end }\n"]:
         base.append((Case(compile_line(base_cfg(), bad), bad, base_cfg(), {}), 6))
+    # two label clashes in different chunks of one script: always the same one is reported
+    for bad in ["script Sign {\n  lock\nSign_1:\n  if (flag(FLAG_READ)) {\nSign_2:\n    msgbox(\"Nothing new.\")\n  }\n  release\n}\n",
+                "script W {\n  while (flag(F)) {\nW_Text_0:\n    msgbox(\"x\")\nW_3:\n    a\n  }\nW_1:\n  b\n}\n"]:
+        for o in (True, False):
+            cb = base_cfg(optimize=o); base.append((Case(compile_line(cb, bad), bad, cb, {}), 8))
     many = Cfg(fonts={("F%d" % k): {"widths": {}} for k in range(8)})
     base.append((Case(compile_line(many, src), src, many, {}), 6))
     src2 = 'text T { poryswitch(V) { A: "x" } }\nscript S { poryswitch(W) { Q: a } }\n'
